@@ -513,7 +513,126 @@ def _local_of_term(body, S, t):
     return None
 
 
+CHAR_PREDICATES = {
+    "is_ascii_alphanumeric": lambda ch: ch.isascii() and ch.isalnum(),
+    "is_ascii_alphabetic": lambda ch: ch.isascii() and ch.isalpha(),
+    "is_ascii_digit": lambda ch: ch.isascii() and ch.isdigit(),
+    "is_ascii_uppercase": lambda ch: ch.isascii() and ch.isupper(),
+    "is_ascii_lowercase": lambda ch: ch.isascii() and ch.islower(),
+    "is_ascii_punctuation": lambda ch: ch.isascii() and (33 <= ord(ch) <= 47 or 58 <= ord(ch) <= 64 or 91 <= ord(ch) <= 96 or 123 <= ord(ch) <= 126),
+    "is_ascii_whitespace": lambda ch: ch in " \t\n\x0c\r",
+    "is_ascii_graphic": lambda ch: 33 <= ord(ch) <= 126,
+    "is_ascii": lambda ch: ord(ch) < 128,
+    "is_alphanumeric": lambda ch: ch.isalnum(),
+    "is_alphabetic": lambda ch: ch.isalpha(),
+    "is_numeric": lambda ch: ch.isnumeric(),
+    "is_whitespace": lambda ch: ch.isspace(),
+}
+
+
+def char_class(P, cb):
+    """The set of ASCII characters a `|c: char| -> bool` closure accepts, by evaluating its decision rows for each of the 128 characters
+    (std char predicates interpreted by the table above, comparisons with character constants literally); None if not evaluable."""
+    from ..engine import decision as D
+    rows = D.decision_rows(P, cb)
+    if not rows:
+        return None
+
+    def ev(t, ch):
+        t = T.strip(t)
+        if t[0] == "const" and isinstance(t[1], bool):
+            return t[1]
+        if t[0] == "unop" and t[1] == "Not":
+            v = ev(t[2], ch)
+            return None if v is None else not v
+        if t[0] == "binop" and t[1] in ("Eq", "Ne", "Lt", "Le", "Gt", "Ge"):
+            a, b_ = T.strip(t[2]), T.strip(t[3])
+            if a[0] == "const":
+                a, b_ = b_, a
+                op = {"Lt": "Gt", "Gt": "Lt", "Le": "Ge", "Ge": "Le"}.get(t[1], t[1])
+            else:
+                op = t[1]
+            while a[0] in ("deref", "ref"):
+                a = T.strip(a[1] if a[0] == "deref" else a[2])
+            if a[0] != "param" or b_[0] != "const" or not isinstance(b_[1], str) or len(b_[1]) != 1:
+                return None
+            x, y = ord(ch), ord(b_[1])
+            return {"Eq": x == y, "Ne": x != y, "Lt": x < y, "Le": x <= y, "Gt": x > y, "Ge": x >= y}[op]
+        if t[0] == "binop" and t[1] in ("BitOr", "BitAnd"):
+            x, y = ev(t[2], ch), ev(t[3], ch)
+            if x is None or y is None:
+                return None
+            return (x or y) if t[1] == "BitOr" else (x and y)
+        if t[0] == "call":
+            last = t[1].rsplit("::", 1)[-1]
+            if last in CHAR_PREDICATES and len(t[2]) == 1:
+                return CHAR_PREDICATES[last](ch)
+        return None
+    acc = set()
+    for k in range(128):
+        ch = chr(k)
+        vals = set()
+        for r in rows:
+            ok = True
+            for c in r.conds:
+                if c[0] == "cmp":
+                    v = ev(("binop", c[1], c[2], c[3]), ch)
+                    want = c[4]
+                elif c[0] == "bool":
+                    v = ev(c[1], ch)
+                    want = c[2]
+                else:
+                    return None
+                if v is None:
+                    return None
+                if v != want:
+                    ok = False
+                    break
+            if ok:
+                rv = ev(r.ret, ch)
+                if rv is None:
+                    return None
+                vals.add(rv)
+        if len(vals) != 1:
+            return None
+        if vals.pop():
+            acc.add(ch)
+    return acc
+
+
+def rule_header_name_class(ctx):
+    """R3: every header name the printer can emit for a bundled-style signature is read back: the name class of the header parser contains
+    all ASCII letters, digits and `-` (Content-MD5, P3P, X-Forwarded-For ..) and stops at the separators of the signature syntax"""
+    import string
+    P = ctx.program
+    b = P.fn("db_parse::parse_header_key_value")
+    S = T.Slicer(b, P)
+    got = None
+    for blk, t in Q.calls(b, ["take_while", "take_while1", "take_till", "take_till1"]):
+        a = Q.call_args(b, S, blk, t)
+        cl = T.strip(a[0])
+        if cl[0] == "agg" and cl[1] == "closure" and cl[2] in P.bodies:
+            cls = char_class(P, P.bodies[cl[2]])
+            if cls is not None:
+                if callee_of(t).rsplit("::", 1)[-1].startswith("take_till"):
+                    cls = {chr(k) for k in range(128)} - cls
+                got = cls
+                break
+    if got is None:
+        ctx.cannot("R3", "header-name:class", "the character class of header names could not be evaluated", ctx.loc(b))
+        return
+    need = set(string.ascii_letters + string.digits + "-")
+    stop = set(":=,[]?")
+    miss = sorted(need - got)
+    leak = sorted(stop & got)
+    ctx.check(not miss and not leak, "R3", "header-name:class", "header names = letters, digits, `-` (%d characters accepted)" % len(got),
+              "the header-name class of the signature parser %s: a header the printer writes (`Content-MD5`, `P3P`) is cut at that character when the text is read "
+              "back, so a valid signature line no longer parses to the value that printed it" % (
+                  ("lacks %s" % "".join(miss)[:20]) if miss else ("accepts the separator(s) %s" % "".join(leak))), ctx.loc(b))
+
+
 def run(ctx):
+    rule_header_name_class(ctx)
     rule_R1_R2(ctx)
     rule_R1_composite(ctx)
     rule_R1_header(ctx)
